@@ -24,6 +24,11 @@ OPNAMES = {'operator+=': 'op_add_assign', 'operator-=': 'op_sub_assign', 'operat
 SINK_CALLEES = {'OpmLog', 'Logger'}
 
 
+def is_expr(n):
+    k = (n or {}).get('kind', '')
+    return k.endswith(('Expr', 'Operator', 'Literal', 'ExprWithCleanups'))
+
+
 class LoopInfo:
     def __init__(self, k, kind, file, line):
         self.k, self.kind, self.file, self.line = k, kind, file, line
@@ -77,38 +82,63 @@ class Translator:
                 if n['kind'] == 'EnumDecl' and n.get('name') == short:
                     self._rec_cache[spelling] = 'c_enum'
                     return 'c_enum'
-        cands = []
+        rec = self.find_record_decl(spelling)
+        if rec is None:
+            r = self.resolve_typedef(spelling)
+            self._rec_cache[spelling] = r
+            return r
+        if rec.get('bases'):
+            raise ExtractError('record with base classes: ' + spelling)
+        r = self.record_ctype(rec)
+        self._rec_cache[spelling] = r
+        return r
+
+    def find_record_decl(self, spelling):
+        base, args = template_parts(spelling)
+        short = base.split('::')[-1]
         for n in self.db.byid.values():
-            if n['kind'] not in ('CXXRecordDecl', 'ClassTemplateSpecializationDecl'):
-                continue
-            if n.get('name') != short or not n.get('completeDefinition'):
+            if n['kind'] not in ('CXXRecordDecl', 'ClassTemplateSpecializationDecl') or n.get('name') != short \
+                    or not n.get('completeDefinition'):
                 continue
             if args is not None:
                 if n['kind'] != 'ClassTemplateSpecializationDecl':
                     continue
-                targs = [self._targ(k) for k in n.get('inner', []) if k.get('kind') == 'TemplateArgument']
+                targs = [re.sub(r'\s+', '', self._targ(k)) for k in n.get('inner', []) if k.get('kind') == 'TemplateArgument']
                 want = [re.sub(r'\s+', '', strip_cv(a)) for a in args]
-                have = [re.sub(r'\s+', '', a) for a in targs]
-                if [re.sub(r'[uUlL]+$', '', w) if w[:1].isdigit() else w for w in want] != have:
+                want = [re.sub(r'[uUlL]+$', '', w) if w[:1].isdigit() else w for w in want]
+                if want != targs[:len(want)]:
                     continue
             elif n['kind'] != 'CXXRecordDecl':
                 continue
-            cands.append(n)
-        if not cands:
-            self._rec_cache[spelling] = None
+            return n
+        return None
+
+    def resolve_typedef(self, spelling):
+        """member typedef:  Rec<..>::Name  or a bare Name inside the current method's class"""
+        if '::' in spelling:
+            # split at the last top-level '::'
+            depth, cut = 0, -1
+            for i, ch in enumerate(spelling):
+                if ch == '<':
+                    depth += 1
+                elif ch == '>':
+                    depth -= 1
+                elif ch == ':' and depth == 0 and spelling[i:i + 2] == '::':
+                    cut = i
+            if cut < 0:
+                return None
+            rec = self.find_record_decl(spelling[:cut])
+            name = spelling[cut + 2:]
+        else:
+            rec = getattr(self, 'cur_record', None)
+            name = spelling
+        if rec is None:
             return None
-        # several identical re-dumps of the same record are possible (template + specialisation lists)
-        rec = cands[0]
-        cname = self.records.get(spelling) or ident(spelling.replace('Opm::', ''))
-        self._rec_cache[spelling] = 'struct ' + cname      # break recursion
-        fields = []
         for k in rec.get('inner', []):
-            if k.get('kind') == 'FieldDecl':
-                fields.append((self.tm.tname(k['type']), k['name']))
-        for b in rec.get('bases', []):
-            raise ExtractError('record with base classes: ' + spelling)
-        self.tm.add_record(cname, fields)
-        return 'struct ' + cname
+            if k.get('kind') in ('TypedefDecl', 'TypeAliasDecl') and k.get('name') == name:
+                t = k['type']
+                return self.tm.tname(t)
+        return None
 
     @staticmethod
     def _targ(k):
@@ -155,13 +185,13 @@ class Translator:
         gname = 'G_' + ident(d.get('_qual', name)) if d.get('_qual') else 'G_' + name
         if gname in self.globals:
             return gname
-        inits = [k for k in d.get('inner', []) if k.get('kind', '').endswith(('Expr', 'Literal', 'Operator'))]
+        inits = [k for k in d.get('inner', []) if is_expr(k)]
         if not inits:
             # declaration without initialiser here; look for a redeclaration with one
             for o in self.db.byid.values():
                 if o.get('kind') == 'VarDecl' and o.get('name') == name and o.get('mangledName') == d.get('mangledName') \
-                        and any(k.get('kind', '').endswith(('Expr', 'Literal', 'Operator')) for k in o.get('inner', [])):
-                    inits = [k for k in o['inner'] if k.get('kind', '').endswith(('Expr', 'Literal', 'Operator'))]
+                        and any(is_expr(k) for k in o.get('inner', [])):
+                    inits = [k for k in o['inner'] if is_expr(k)]
                     break
         if not inits:
             raise ExtractError('global %s has no constant initialiser' % name)
@@ -394,9 +424,22 @@ class Translator:
     def e_InitListExpr(self, n, i):
         ct = self.ty(n)
         kind = self.tm.kinds.get(ct)
-        vals = [self.e(x) for x in i]
         if kind and kind[0] == 'arr':
-            return '((%s){ { %s } })' % (ct, ', '.join(vals))
+            # std::array<T,N>{...}: clang nests the inner C array as one InitListExpr
+            elems = i
+            if len(i) == 1 and i[0].get('kind') == 'InitListExpr':
+                elems = [x for x in i[0].get('inner', []) if x]
+                filler = i[0].get('array_filler')
+            else:
+                filler = n.get('array_filler')
+            vals = []
+            for x in elems:
+                if x.get('kind') == 'ImplicitValueInitExpr':
+                    continue
+                vals.append(self.e(x))
+            vals += ['0'] * (kind[2] - len(vals))
+            return self.mk_struct(ct, ['a[%d]' % j for j in range(kind[2])], vals)
+        vals = [self.e(x) for x in i]
         if kind and kind[0] == 'tup':
             return self.mk_struct(ct, ['_%d' % j for j in range(len(vals))], vals)
         if kind and kind[0] == 'rec':
@@ -447,7 +490,7 @@ class Translator:
         if kind and kind[0] == 'opt' and len(args) == 1:
             return '((%s){ 1, %s })' % (ct, self.e(args[0]))
         if kind and kind[0] == 'arr' and not args:
-            return 'ARR_ZERO(%s)' % ct
+            return self.mk_struct(ct, ['a[%d]' % j for j in range(kind[2])], ['0'] * kind[2])
         # user constructor in the extraction set?
         cn = self._ctor_cname(n, ct, args)
         if cn:
@@ -495,12 +538,28 @@ class Translator:
         return True
 
     def addr(self, a, x):
+        if self.binds_temporary(a):
+            return self.hoist(a, x)
         if a.get('valueCategory') == 'lvalue' or self._lvalue_text(x):
             if x.startswith('(*') and x.endswith(')') and self._balanced(x[2:-1]):
                 return x[2:-1]
             return '&' + x
-        ct = self.tm.tname(a['type'])
-        return '&(%s){ %s }' % (ct, x) if ct in SCALAR_C else 'ADDR_TMP(%s, %s)' % (ct, x)
+        return self.hoist(a, x)
+
+    def hoist(self, a, x):
+        """a temporary bound to a reference parameter: materialised as a local before the statement"""
+        p = a.get('_parent')
+        while p is not None and is_expr(p):
+            if p.get('kind') == 'ConditionalOperator' or (p.get('kind') == 'BinaryOperator' and p.get('opcode') in ('&&', '||')):
+                self.abort(a, 'temporary materialised inside a conditionally evaluated operand')
+            p = p.get('_parent')
+        if self.no_hoist:
+            self.abort(a, 'temporary materialised in a loop condition/increment')
+        ct = self.tm.tname(a['type']).rstrip(' *').rstrip()
+        self.tmpn = getattr(self, 'tmpn', 0) + 1
+        t = 'verif_t%d' % self.tmpn
+        self.pre.append('%s %s = %s;' % (ct, t, x))
+        return '&' + t
 
     @staticmethod
     def _lvalue_text(x):
@@ -516,10 +575,19 @@ class Translator:
         self.cur.calls.add(cn)
         self.called = True
         txt = '%s(%s)' % (cn, ', '.join(al))
-        rt = d['type']['qualType'].split('(')[0].strip()
-        if rt.endswith('&'):
+        qt = d['type']['qualType']
+        rt = qt[:qt.find('(')].strip()
+        if rt.endswith('&') and not self.ret_by_value_decl(d, rt):
             return '(*%s)' % txt
         return txt
+
+    def ret_by_value_decl(self, d, rt):
+        saved = getattr(self, 'cur_record', None)
+        self.cur_record = self.class_of(d) if d['kind'] in ('CXXMethodDecl',) else saved
+        try:
+            return self.ret_by_value(rt)
+        finally:
+            self.cur_record = saved
 
     def e_CallExpr(self, n, i):
         ref, refnode = self.callee_decl(i[0])
@@ -550,7 +618,7 @@ class Translator:
         cn = self.fn_cname(ref)
         if cn:
             if ptr is None:
-                ptr = 'ADDR_TMP(%s, %s)' % (self.tm.tname(obj['type']), o)
+                ptr = self.hoist(obj, o)
             return self.call_extracted(cn, self.full_decl(ref), ptr, i[1:])
         return self.lib_call(n, me.get('name'), self.full_decl(ref), (obj, o, ptr), i[1:])
 
@@ -774,12 +842,19 @@ class Translator:
     def s(self, n):
         k = n['kind']
         inner = [x for x in n.get('inner', []) if x]
+        saved, self.pre = self.pre, []
+        at = len(self.lines)
         m = getattr(self, 's_' + k, None)
         if m is not None:
-            return m(n, inner)
-        if k.endswith(('Expr', 'Operator', 'Literal', 'ExprWithCleanups')) or hasattr(self, 'e_' + k):
-            return self.s_expr(n)
-        self.abort(n, 'statement')
+            m(n, inner)
+        elif k.endswith(('Expr', 'Operator', 'Literal', 'ExprWithCleanups')) or hasattr(self, 'e_' + k):
+            self.s_expr(n)
+        else:
+            self.abort(n, 'statement')
+        if self.pre:
+            ind = re.match(r' *', self.lines[at]).group(0) if at < len(self.lines) else '    ' * self.ind
+            self.lines[at:at] = [ind + p for p in self.pre]
+        self.pre = saved
 
     def s_expr(self, n):
         if any(id(n) == id(s) for s in self.sinks):
@@ -859,17 +934,26 @@ class Translator:
     def var_decl(self, v):
         qt = v['type']['qualType']
         name = self.fresh(v['name'])
-        init = [x for x in v.get('inner', []) if x and x.get('kind', '').endswith(('Expr', 'Operator', 'Literal'))]
+        init = [x for x in v.get('inner', []) if x and is_expr(x)]
         if qt.rstrip().endswith('&'):
-            # local reference: pointer to the referent
             if not init:
                 self.abort(v, 'reference without initialiser')
-            tgt = self.e(init[-1])
             ct = self.tm.tname(v['type'])
-            if ct.rstrip(' *') in SCALAR_C and 'const ' in qt and init[-1].get('valueCategory') != 'lvalue':
+            base = ct.rstrip(' *').rstrip()
+            if self.binds_temporary(init[-1]):
+                # const T& x = <prvalue>: lifetime-extended temporary == a local value
                 self.locals[v['id']] = name
-                self.out('%s %s = %s;' % (ct.rstrip(' *'), name, tgt))
+                self.out('%s %s = %s;' % (base, name, self.e(init[-1])))
+                self.propagate()
                 return
+            if base in SCALAR_C:
+                # reference to a scalar lvalue: translated by substitution of the referent expression
+                # (pointers into arrays of mathematical reals are not supported by CBMC)
+                self.check_stable(init[-1], v)
+                self.alias[v['id']] = '(' + self.e(init[-1]) + ')'
+                self.cur.dropped.append(('reference-local %s substituted by its referent' % v['name'], self._line(v)))
+                return
+            tgt = self.e(init[-1])
             self.locals[v['id']] = name
             self.ref_locals.add(v['id'])
             self.out('%s %s = %s;' % (ct, name, self.addr(init[-1], tgt)))
@@ -895,6 +979,37 @@ class Translator:
                 return
         self.out('%s %s = %s;' % (ct, name, self.e(x)))
         self.propagate()
+
+    @staticmethod
+    def binds_temporary(x):
+        while x.get('kind') in ('ExprWithCleanups', 'ImplicitCastExpr', 'ParenExpr') and x.get('inner'):
+            if x['kind'] == 'ImplicitCastExpr' and x.get('castKind') not in ('NoOp', 'DerivedToBase'):
+                break
+            x = x['inner'][0]
+        return x.get('kind') == 'MaterializeTemporaryExpr'
+
+    def check_stable(self, x, v):
+        """referent expression of a substituted reference: member/subscript chains over parameters, this,
+        literals and calls of const member functions only"""
+        for y in walk(x):
+            k = y.get('kind')
+            if k in ('MemberExpr', 'DeclRefExpr', 'CXXThisExpr', 'IntegerLiteral', 'ImplicitCastExpr', 'ParenExpr',
+                     'ArraySubscriptExpr', 'CXXOperatorCallExpr', 'CXXMemberCallExpr', 'CallExpr', 'BinaryOperator',
+                     'ExprWithCleanups', 'MaterializeTemporaryExpr', 'UnaryOperator'):
+                if k == 'BinaryOperator' and y.get('opcode') not in ('+', '-', '*'):
+                    self.abort(v, 'reference to an expression with operator ' + str(y.get('opcode')))
+                if k == 'UnaryOperator' and y.get('opcode') not in ('-', '*'):
+                    self.abort(v, 'reference to an expression with operator ' + str(y.get('opcode')))
+                if k == 'CXXMemberCallExpr':
+                    me = y['inner'][0]
+                    ft = me.get('type', {}).get('qualType', '')
+                    # bound member function type is '<bound member function type>'; constness from the decl
+                    d = self.db.byid.get(me.get('referencedMemberDecl'))
+                    if d is not None and not d['type']['qualType'].rstrip().endswith('const') \
+                            and not d['type']['qualType'].rstrip().endswith('const noexcept'):
+                        self.abort(v, 'reference through a non-const member call')
+                continue
+            self.abort(v, 'reference to an expression containing ' + str(k))
 
     def fresh(self, name):
         base = name
@@ -1151,10 +1266,19 @@ class Translator:
         self.abort(n, 'try/catch')
 
     # ================================================================== functions
-    def method_self_type(self, d):
+    def class_of(self, d):
         par = d.get('_parent')
         if 'parentDeclContextId' in d:
             par = self.db.byid.get(d['parentDeclContextId'], par)
+        while par is not None and par.get('kind') == 'FunctionTemplateDecl':
+            p2 = par.get('_parent')
+            if 'parentDeclContextId' in par:
+                p2 = self.db.byid.get(par['parentDeclContextId'], p2)
+            par = p2
+        return par
+
+    def method_self_type(self, d):
+        par = self.class_of(d)
         if par is None or par.get('kind') not in ('CXXRecordDecl', 'ClassTemplateSpecializationDecl',
                                                     'ClassTemplatePartialSpecializationDecl'):
             return None
@@ -1166,8 +1290,12 @@ class Translator:
             return self._rec_cache[key]
         name = rec.get('name', 'anon')
         targs = [self._targ(k) for k in rec.get('inner', []) if k.get('kind') == 'TemplateArgument']
-        cname = self.records.get(name + ('<' + ', '.join(targs) + '>' if targs else '')) or \
-            ident(name + ('_' + '_'.join(targs) if targs else ''))
+        full = name + ('<' + ', '.join(targs) + '>' if targs else '')
+        cname = None
+        for rx, cn in self.records.items():
+            if re.fullmatch(rx, full):
+                cname = cn
+        cname = cname or ident(name + ('_' + '_'.join(targs) if targs else ''))
         self._rec_cache[key] = 'struct ' + cname
         fields = []
         for k in rec.get('inner', []):
@@ -1188,6 +1316,8 @@ class Translator:
         self.used_names = {'self'}
         self.lines, self.ind, self.brk = [], 0, []
         self.called = False
+        self.pre, self.no_hoist = [], False
+        self.pre, self.no_hoist = [], False
         rt = d['type']['qualType']
         p = rt.find('(')
         rts = rt[:p].strip()
@@ -1199,6 +1329,12 @@ class Translator:
             self.ret_is_ref = rts.endswith('&')
             # the JSON 'type' of a function is its sugared spelling; ask clang's desugared form when present
             f.ret = self.tm.c(self._desugar_ret(d, rts))
+            if self.ret_is_ref and self.ret_by_value(rts):
+                self.ret_is_ref = False
+                f.ret = f.ret.rstrip(' *').rstrip()
+        self.cur_record = None
+        if d['kind'] in ('CXXMethodDecl', 'CXXConstructorDecl'):
+            self.cur_record = self.class_of(d)
         if is_method:
             st = self.method_self_type(d)
             if st is None:
@@ -1243,6 +1379,19 @@ class Translator:
         f.text = f.proto() + '\n' + '\n'.join(self.lines) + '\n'
         self.cur = None
         return f
+
+    def ret_by_value(self, rts):
+        """functions returning `const T&` for scalar T are translated as returning T (the referent is
+        read at the call; callers that bind the result to a reference re-evaluate the call)"""
+        if not rts.endswith('&'):
+            return False
+        b = rts[:-1].strip()
+        if strip_cv(b) == b:
+            return False
+        try:
+            return self.tm.c(b) in SCALAR_C
+        except ExtractError:
+            return False
 
     def _desugar_ret(self, d, rts):
         # return statements carry the desugared type; fall back to the spelled one
